@@ -6,6 +6,9 @@ from common import Check, seed, log
 import lincheck
 
 FAMS = ["border", "full", "two", "empty", "layer", "layerfull", "three"]
+# extra families per property: pair = interior root over two nearly empty borders (both emptied concurrently, root collapse);
+# links = layer-0 border that holds only next-layer links (inserts of short keys land in a border that gave the scan no value)
+EXTRA = {"C01": ["pair"], "C08c": ["pair"], "C09": ["pair"], "C04": ["links"], "C06": ["links"], "C10": ["links", "pair"]}
 
 
 def plan(prop, tier):
@@ -13,17 +16,17 @@ def plan(prop, tier):
     s = seed()
     J = []   # (family, sched, extra args)
     if prop in ("C01", "C08c", "C09"):
-        for i, fam in enumerate(FAMS):
+        for i, fam in enumerate(FAMS + EXTRA.get(prop, [])):
             big = fam == "three"
             J.append((fam, "random", ["scenarios=%d" % ((25 if q else 120) // (3 if big else 1)), "runs=%d" % (12 if q else 30), "threads=2", "opsper=2"]))
             J.append((fam, "pre1", ["scenarios=%d" % ((8 if q else 40) // (2 if big else 1)), "threads=2", "opsper=%d" % (1 if big else 2)]))
             if not big:
                 J.append((fam, "pct", ["scenarios=%d" % (12 if q else 60), "runs=%d" % (10 if q else 30), "threads=3", "opsper=2"]))
         if not q:   # free-running real threads on the same scenarios (hardware interleavings)
-            for fam in FAMS[:6]:
+            for fam in FAMS[:6] + ["pair"]:
                 J.append((fam, "free", ["scenarios=300", "runs=40", "threads=3", "opsper=2"]))
     elif prop in ("C04", "C06"):
-        for fam in FAMS:
+        for fam in FAMS + EXTRA.get(prop, []):
             big = fam == "three"
             sc = ["scans=35"] if prop == "C04" else ["scans=45"]
             J.append((fam, "random", ["scenarios=%d" % ((25 if q else 120) // (3 if big else 1)), "runs=%d" % (12 if q else 30), "threads=2", "opsper=2"] + sc))
@@ -44,7 +47,7 @@ def plan(prop, tier):
             J.append((fam, "random", ["scenarios=%d" % (25 if q else 120), "runs=%d" % (12 if q else 30), "threads=2", "opsper=2"]))
             J.append((fam, "pre1", ["scenarios=%d" % (8 if q else 40), "threads=2", "opsper=2"]))
     elif prop == "C10":
-        for fam in FAMS:
+        for fam in FAMS + EXTRA.get(prop, []):
             big = fam == "three"
             J.append((fam, "random", ["scenarios=%d" % ((25 if q else 120) // (3 if big else 1)), "runs=%d" % (12 if q else 30), "threads=2", "opsper=2", "iscans=45"]))
             J.append((fam, "pre1", ["scenarios=%d" % ((8 if q else 40) // (2 if big else 1)), "threads=2", "opsper=%d" % (1 if big else 2), "iscans=50"]))
@@ -205,7 +208,7 @@ def run_steps2(chk, prop, tier, pk):
 def main(prop, tier):
     chk = Check(prop, tier)
     chk.assumptions += ["sequentially consistent executions only: one controlled thread runs at a time, preemption at the verification hooks (every atomic load/store/CAS of version, permutation, slot, link and root words)",
-                        "exploration is bounded: seeded random / PCT schedules and every single preemption of 2-thread programs over 7 tree-shape families; 1-2 operations per thread",
+                        "exploration is bounded: seeded random / PCT schedules and every single preemption of 2-thread programs over 7-9 tree-shape families; 1-2 operations per thread",
                         "values carry their id in every word, so a torn or null value is recognisable"]
     run_model_and_steps(chk, prop, tier)
     run_conc(chk, prop, tier)
